@@ -56,6 +56,12 @@ theorem lookup_unq_a (env : Env) (av dv : List Value) (src : Option (String × N
   simp [lookupColumn, Env.scopes, upEnv, lookupUnqualified, h]
   rfl
 
+theorem cmpInt_lt_iff (a b : Int) : cmpInt a b = Ordering.lt ↔ a < b := by
+  unfold cmpInt
+  by_cases h : a < b
+  · simp [h]
+  · by_cases e : a = b <;> simp [h, e]
+
 /-- `LEAST` over two timestamps, NULLs ignored -/
 def leastOpt (d : Option Int) (a : Int) : Int :=
   match d with
@@ -95,14 +101,10 @@ theorem upsertAccounts_update_exprs (cb : Callbacks) (te : TypeEnv) (env : Env) 
     cases fuD with
     | none => simp [evalPureFn, optTs, Value.isNull, leastOpt]
     | some x =>
-      simp [evalPureFn, optTs, Value.isNull, leastOpt, compareForSort, compareValues, compareScalar]
-      have := cmpInt_lt fuA x
-      by_cases h : fuA < x
-      · have e : cmpInt fuA x = Ordering.lt := by simpa [h] using this
-        simp [e, h]
-      · have e : ¬ cmpInt fuA x = Ordering.lt := by
-          intro e'; rw [e'] at this; simp [h] at this
-        simp [e, h]
+      -- robust to the order of LEAST's operands
+      simp [evalPureFn, optTs, Value.isNull, leastOpt, compareForSort, compareValues, compareScalar, cmpInt_lt_iff]
+      repeat' split
+      all_goals first | rfl | omega | (have e : x = fuA := (by omega); rw [e]; try rfl)
   · have a1 := lookup_a env (acVals la addrA aaA insA updA mdA fuA) (dbVals addrD mdD fuD insD updD aaD dmD biD) src "metadata" (.json mdA) rfl
     have d1 := lookup_d env (acVals la addrA aaA insA updA mdA fuA) (dbVals addrD mdD fuD insD updD aaD dmD biD) src "metadata" (.json mdD) rfl
     simp only [evalExpr, exec_bind, a1, d1, exec_liftR_ok]
